@@ -21,8 +21,8 @@
 (*    exception counts as a refusal, a returned number does not);          *)
 (*  - the quantity types are those of pmutt's own type_dict; the catalogue *)
 (*    below must agree with it on the units both know;                     *)
-(*  - elements 113, 115, 117, 118 are left out of the periodic table here: *)
-(*    their symbols changed in 2016 and pmutt uses the placeholder names.  *)
+(*  - elements 113, 115, 117, 118 changed symbol in 2016: the placeholder   *)
+(*    (Uut, Uup, Uus, Uuo) and the final symbol are both accepted.         *)
 (***************************************************************************)
 EXTENDS Rat, TLC, FiniteSets
 
@@ -91,7 +91,11 @@ Symbols == <<"H", "He", "Li", "Be", "B", "C", "N", "O", "F", "Ne", "Na", "Mg", "
   "Hg", "Tl", "Pb", "Bi", "Po", "At", "Rn", "Fr", "Ra", "Ac", "Th", "Pa", "U", "Np", "Pu", "Am",
   "Cm", "Bk", "Cf", "Es", "Fm", "Md", "No", "Lr", "Rf", "Db", "Sg", "Bh", "Hs", "Mt", "Ds", "Rg",
   "Cn", "", "Fl", "", "Lv", "", "">>
-Elements == {z \in 1..Len(Symbols) : Symbols[z] # ""}
+\* 113, 115, 117, 118 were renamed in 2016; either the placeholder or the final symbol is accepted
+AltSymbols == 113 :> <<"Uut", "Nh">> @@ 115 :> <<"Uup", "Mc">> @@ 117 :> <<"Uus", "Ts">>
+           @@ 118 :> <<"Uuo", "Og">>
+SymbolsOf(z) == IF Symbols[z] # "" THEN <<Symbols[z]>> ELSE AltSymbols[z]
+Elements == 1..Len(Symbols)
 
 \* ---------------------------------------------------------------- laws of a conversion algebra
 \* conv(u, v, x): value of x[u] expressed in v.  S: the units of one quantity type,
